@@ -71,17 +71,19 @@ def _run(ck: core.Check, pool):
     from harness import lib_vpnodes as N
     from harness import lib_vpprog as P
 
+    from harness import lib_vpsources as S
+
     rng = ck.rng
     L.single_threaded_ort()
     # ---- oracle tasks (worker processes)
     tasks = []
-    for _ in range(ck.pick(70, 700)):
+    for _ in range(S.escalate(ck, 70, 700, 3)):
         steps = P.gen_program(rng, PROGRAM_SIZE)
         seed = rng.randrange(10**6)
         for sel in ("reference", "onnxruntime"):
             tasks.append({"level": "c07prog", "steps": steps, "sel": sel, "seed": seed})
     # derived types: one operator whose inference reads a constant operand, boundary constants, const / argument data
-    n_der = ck.pick(6, 60)
+    n_der = S.escalate(ck, 6, 60, 3)
     for t in P.DERIVED_TEMPLATES:
         for _ in range(n_der):
             steps = P.gen_derived_program(rng, t)
@@ -93,7 +95,7 @@ def _run(ck: core.Check, pool):
     try:
         from harness import lib_vplegacy as LG
 
-        n_leg = ck.pick(4, 40)
+        n_leg = S.escalate(ck, 4, 40, 3)
         for t in sorted(LG.TEMPLATES):
             vers = LG.TEMPLATES[t]
             n_t = n_leg * LG.WEIGHT.get(t, 1)
@@ -109,7 +111,7 @@ def _run(ck: core.Check, pool):
     try:
         from harness import lib_vpdtype as DT
 
-        n_dt = ck.pick(3, 30)
+        n_dt = S.escalate(ck, 3, 30, 3)
         for t in DT.TEMPLATES:
             for _ in range(n_dt):
                 steps = DT.gen_dtype_program(rng, t)
